@@ -445,7 +445,7 @@ func TestVerifServerWriteExistingInBackend(t *testing.T) {
 				var committed int64
 				var err error
 				if abort == -2 {
-					committed, err, _ = f.vWriteMsgs([]vMsg{{name: name, data: wire[:1000]}}, true, 3*time.Second)
+					committed, err, _ = f.vWriteMsgs([]vMsg{{name: name, data: wire[:1000]}}, true, 10*time.Second)
 				} else {
 					committed, err = f.vBSWrite(name, wire, 1000, -1, true)
 				}
